@@ -96,6 +96,12 @@ Proof.
 Qed.
 Print Assumptions C02_example_rows.
 
+(* the maintenance call recompute_cardinality_param() is the identity on every consistent instance
+   (so it may be called anywhere in a history; the read-only accessors are pure functions of the state) *)
+Theorem C02_recompute_noop : forall s ms, Inv s ms -> recompute s = s.
+Proof. exact recompute_noop. Qed.
+Print Assumptions C02_recompute_noop.
+
 (* ---- regrouping / reordering the same multiset of votes ---- *)
 Theorem C02_regroup : forall ops ops',
   wf_ops ops -> wf_ops ops' -> Permutation (votes_of ops) (votes_of ops') ->
